@@ -116,6 +116,7 @@ type Sim struct {
 	pileRID        string
 	piled          int
 	stop           *stopState
+	stopRng        *rand.Rand
 	calm           bool
 	nats           *natsWorld
 	pendingAcc     []pendingAccess
